@@ -15,23 +15,23 @@ BROKER_NOTE = "Operations and views go through MemBrokerService (the object behi
 CHECKS = {
  "C01": dict(engine="brokersim", category="exploration", design="DESIGN.md §3 C01",
    technique="property-based testing (proptest): invariant over generated broker operation histories, evaluated after every step",
-   text="Generated histories (vec(op)+interpreter, operands picked from the current state) of every admin operation over generated host layouts, migration limits 0..3 and ordered mode; after every step the served cluster view and every per-proxy view are decoded from JSON and checked against an independent 16384-entry owner array, the migrating/importing twin rule and the projection rule. Plus a bounded-exhaustive sub-check: every sequence of 3 (quick) / 5 (thorough) operations over a reduced 15-operation alphabet on a fixed 8-proxy layout, migration_limit 0 and 1.",
+   text="Generated histories (vec(op)+interpreter, operands picked from the current state) of every admin operation over generated host layouts, migration limits 0..3 and ordered mode; after every step the served cluster view and every per-proxy view are decoded from JSON and checked against an independent 16384-entry owner array, the migrating/importing twin rule and the projection rule. Plus a bounded-exhaustive sub-check: every sequence of 3 (quick) / 4 (thorough) operations over a reduced 15-operation alphabet on a fixed 8-proxy layout, migration_limit 0 and 1.",
    note=BROKER_NOTE),
  "C04": dict(engine="brokersim", category="exploration", design="DESIGN.md §3 C04",
    technique="property-based testing (proptest): history invariant (epoch monotone, strictly increasing on content change) over generated operation histories",
-   text="Same generated histories; after every operation each registered address' served view is compared with the last view ever served for it: epoch never decreases, strictly increases when anything else differs; global epoch monotone. Plus the bounded-exhaustive small-scope histories (all sequences of 3/5 operations over a 15-operation alphabet).",
+   text="Same generated histories; after every operation each registered address' served view is compared with the last view ever served for it: epoch never decreases, strictly increases when anything else differs; global epoch monotone. Plus the bounded-exhaustive small-scope histories (all sequences of 3/4 operations over a 15-operation alphabet).",
    note=BROKER_NOTE),
  "C06": dict(engine="brokersim", category="exploration", design="DESIGN.md §3 C06",
    technique="property-based testing (proptest): model-based oracle (expected ownership transfer computed from the pre-state) over generated histories with failovers injected at every point",
-   text="Failover of an arbitrary registered proxy is drawn at every point of generated histories (during migrations, after earlier failovers/replacements/balance, repeated, with and without spares, ordered mode). Oracle: exact ownership transfer to the replica peers, structure of master/replica pairs, migration epoch strictly newer whenever a migration's addresses changed, allocations only from the free healthy pool. Plus the bounded-exhaustive small-scope histories (all sequences of 3/5 operations over a 15-operation alphabet, three of them failovers).",
+   text="Failover of an arbitrary registered proxy is drawn at every point of generated histories (during migrations, after earlier failovers/replacements/balance, repeated, with and without spares, ordered mode). Oracle: exact ownership transfer to the replica peers, structure of master/replica pairs, migration epoch strictly newer whenever a migration's addresses changed, allocations only from the free healthy pool. Plus the bounded-exhaustive small-scope histories (all sequences of 3/4 operations over a 15-operation alphabet, three of them failovers).",
    note=BROKER_NOTE + " The strict clauses are only demanded when the chunk partner is healthy, as the property states."),
  "C10": dict(engine="brokersim", category="exploration", design="DESIGN.md §3 C10",
    technique="property-based testing (proptest): generated scaling chains with generated commit orders and interleaved failovers; validity predicate at every completion, refusal/no-change oracle while migrating",
-   text="Scaling chains (1..4 resize requests up and down, sizes chosen from the state, commits in generated order, interleaved failovers/balance/refused requests/stale commits, migration limits 0..3) plus general histories incl. the auto-scale API. Oracle per step (refused while migrating and nothing changed, released chunks were empty, a pending migration is always served and committable) and per completion (16384 stable slots, balance <=1, trailing empty chunks exactly as requested, cluster info). Plus the bounded-exhaustive small-scope histories (all sequences of 3/5 operations over a 15-operation alphabet).",
+   text="Scaling chains (1..4 resize requests up and down, sizes chosen from the state, commits in generated order, interleaved failovers/balance/refused requests/stale commits, migration limits 0..3) plus general histories incl. the auto-scale API. Oracle per step (refused while migrating and nothing changed, released chunks were empty, a pending migration is always served and committable) and per completion (16384 stable slots, balance <=1, trailing empty chunks exactly as requested, cluster info). Plus the bounded-exhaustive small-scope histories (all sequences of 3/4 operations over a 15-operation alphabet).",
    note=BROKER_NOTE + " Scale-out through the auto API is exercised up to its PROXY_NOT_SYNC outcome."),
  "C12": dict(engine="brokersim", category="exploration", design="DESIGN.md §3 C12",
    technique="property-based testing (proptest): invariants recomputed from the /metadata snapshot after every step of generated histories over skewed host layouts; unchanged-on-refusal oracle",
-   text="Skewed/odd host layouts, competing clusters, removals, failure reports, failovers, re-registrations. After every step: membership vs free pool complement, chunk records, broker self-check, panics caught; refused requests leave the snapshot unchanged (documented exceptions modelled); created chunks span two hosts; replacement not on the partner's host when a third host has a free healthy proxy. Plus the bounded-exhaustive small-scope histories (all sequences of 3/5 operations over a 15-operation alphabet).",
+   text="Skewed/odd host layouts, competing clusters, removals, failure reports, failovers, re-registrations. After every step: membership vs free pool complement, chunk records, broker self-check, panics caught; refused requests leave the snapshot unchanged (documented exceptions modelled); created chunks span two hosts; replacement not on the partner's host when a third host has a free healthy proxy. Plus the bounded-exhaustive small-scope histories (all sequences of 3/4 operations over a 15-operation alphabet).",
    note=BROKER_NOTE + " The replacement clause is only demanded when a host other than both the partner's and the failed proxy's own host had a free healthy proxy."),
  "C13": dict(engine="brokersim", category="exploration", design="DESIGN.md §3 C13",
    technique="property-based testing (proptest): generated crash point x snapshot point x proxy-epoch distribution; restart + epoch recovery; epoch-dominance oracle plus C01/C04 oracles on the continued history",
